@@ -665,9 +665,16 @@ class TextXVisitor(RRELVisitor):
                 return
 
             if isinstance(rule, OrderedChoice):
+                # Each branch starts from the assignments already seen in
+                # the enclosing branch. Whatever any of the branches assigns
+                # is seen by the expressions that follow the choice.
+                branch_sets = []
                 for on in rule.nodes:
-                    oc_branch_set = set()
-                    _update_attr_multiplicities(on, oc_branch_set, mult)
+                    branch_set = set(oc_branch_set)
+                    _update_attr_multiplicities(on, branch_set, mult)
+                    branch_sets.append(branch_set)
+                for branch_set in branch_sets:
+                    oc_branch_set.update(branch_set)
             else:
                 if isinstance(rule, OneOrMore):
                     mult = MULT_ONEORMORE
